@@ -27,6 +27,14 @@ def payloads(rng):
     # framing bytes inside the payload: an end-block byte that is not followed by CR does not end the frame; a start block is just a byte
     out.append(('typed:innerEB', b'MSH|^~\\&|S|F|R|RF|2020||ADT^A01|7|P|2.5\rPID|1||left\x1cright'))
     out.append(('typed:innerEB2', b'MSH|^~\\&|S|F|R|RF|2020||QBP^Q11^QBP_Q11|7|P|2.5\rQPD|a\x1c\x1cb|\x0bc'))
+    # characters that some line splitters treat as line ends (str.splitlines: LF VT FF FS GS RS NEL LS PS) inside the header fields that
+    # precede MSH-9: only CR ends the MSH segment, so the message type is still the ninth field (seed C16-h)
+    for k, ch in enumerate(['\n', '\x0b', '\x0c', '\x1c', '\x1d', '\x1e', '\x85', '\u2028', '\u2029']):
+        flds = ['S', 'F', 'R', 'RF', '2020', '']
+        i = rng.randrange(0, 6)
+        flds[i] = flds[i] + 'a' + ch + 'b'
+        t = TYPES[k % len(TYPES)]
+        out.append(('typed:hdr%04x' % ord(ch), ('MSH|^~\\&|%s|%s|%d|P|2.5\rPID|1||7' % ('|'.join(flds), t, k)).encode('utf-8')))
     out.append(('typed:innerEBunreg', b'MSH|^~\\&|S|F|R|RF|2020||ADT^A08|7|P|2.5\rPID|1||x\x1cy'))
     return out
 
